@@ -593,3 +593,60 @@ def _enum_call(cls, value, *a, **kw):
 
 def install_enum_model():
     enum.EnumMeta.__call__ = _enum_call
+
+
+# ------------------------------------------------------------------ functools.lru_cache stand-in
+_CACHES = []
+
+
+def _has_sym(x):
+    if isinstance(x, (SymInt, SymBool, SymBytes, SymStr, SymIP)):
+        return True
+    if isinstance(x, (tuple, list, frozenset)):
+        return any(_has_sym(y) for y in x)
+    return False
+
+
+def sx_lru_cache(maxsize=128, typed=False):
+    """functools.lru_cache for the lowered modules: same results, but keys are compared
+    with == (forking on symbolic equality) instead of being hashed, and every cache is
+    emptied at the start of each explored path (no state leaks between paths)"""
+
+    def deco(fn):
+        import functools as _ft
+
+        entries = []  # [key, value], most recently used last
+        _CACHES.append(entries)
+
+        @_ft.wraps(fn)
+        def wrapper(*args, **kw):
+            key = (args, tuple(sorted(kw.items())))
+            for i, (k, v) in enumerate(entries):
+                if len(k[0]) == len(args) and k[1].__len__() == len(key[1]) and bool(_keys_equal(k, key)):
+                    entries.append(entries.pop(i))
+                    return v
+            v = fn(*args, **kw)
+            entries.append([key, v])
+            if maxsize is not None and len(entries) > maxsize:
+                entries.pop(0)
+            return v
+
+        wrapper.cache_clear = entries.clear
+        wrapper.__wrapped__ = fn
+        return wrapper
+
+    if callable(maxsize):  # used as @lru_cache without parentheses
+        fn, maxsize = maxsize, 128
+        return deco(fn)
+    return deco
+
+
+def _keys_equal(a, b):
+    from .engine import _deep_eq
+
+    return _deep_eq(a, b)
+
+
+def reset_caches():
+    for e in _CACHES:
+        e.clear()
